@@ -125,7 +125,10 @@ func (c *Ctx) scanTypeInv(ti *TypeInv) ([]*Obligation, int) {
 				switch i := in.(type) {
 				case *ssa.Store:
 					if T, f, ok := fieldOfLoad(i.Addr); ok && T == ti.Type && fields[f] {
-						if _, isAddr := i.Addr.(*ssa.FieldAddr); isAddr {
+						if fa, isAddr := i.Addr.(*ssa.FieldAddr); isAddr {
+							if _, fresh := fa.X.(*ssa.Alloc); fresh && ti.Stable {
+								continue // initialising an object this function has just allocated
+							}
 							bad = append(bad, fmt.Sprintf("%s writes %s.%s at %s", name, T, f, c.posStr(i.Pos())))
 						}
 					}
